@@ -41,7 +41,22 @@ def bodies(tier):
             out.append(body)
     if tier == "quick":
         out = out[:: max(1, len(out) // 12)]
-    return out
+    return PREPROC_BODIES + out
+
+
+# conforming bodies made of what real headers hold besides declarations: nested conditionals, #undef before a #define
+# (the get_next_line idiom), includes, #elif chains -- the guard logic must not be confused by other directives
+_P = "int\tft_value(int n);\n\n"
+PREPROC_BODIES = [
+    "# undef BUFFER_SIZE\n# define BUFFER_SIZE 42\n\n" + _P,
+    "# ifndef BUFFER_SIZE\n#  define BUFFER_SIZE 42\n# endif\n\n" + _P,
+    "# ifdef FT_DEBUG\n#  define FT_LOG 1\n# else\n#  define FT_LOG 0\n# endif\n\n" + _P,
+    "# include <unistd.h>\n# include \"other.h\"\n\n" + _P,
+    "# if defined(__linux__)\n#  define FT_OS 1\n# elif defined(__APPLE__)\n#  define FT_OS 2\n# else\n#  define FT_OS 0\n# endif\n\n" + _P,
+    "# define FT_TMP 1\n# undef FT_TMP\n\n" + _P,
+    "# undef FT_A\n# undef FT_B\n\n" + _P,
+    _P + "# ifndef FT_LATE\n#  define FT_LATE 1\n# endif\n\n",
+]
 
 
 def first_decl_block(body):
